@@ -9,3 +9,4 @@ PROPERTY P_RulePreserved
 PROPERTY P_PubRuleOK
 PROPERTY P_AssignOnOK
 PROPERTY P_NoRaise
+PROPERTY P_SelectOnOK
